@@ -32,6 +32,15 @@ type request struct {
 	Dump   bool   `json:"dump"`
 	Repeat int    `json:"repeat"`
 	Stack  bool   `json:"stack"`
+	Trace  bool   `json:"trace"`
+	Types  bool   `json:"types"`
+}
+
+type vartype struct {
+	Name string `json:"name"`
+	Line int    `json:"line"`
+	Decl string `json:"decl"`
+	Init string `json:"init"`
 }
 
 type diag struct {
@@ -72,6 +81,11 @@ type run struct {
 	RenderPanic []string  `json:"render_panic,omitempty"`
 	Calls       []call    `json:"calls,omitempty"`
 	Dump        string    `json:"dump,omitempty"`
+	Iters       int       `json:"iters"`
+	Stall       bool      `json:"stall"`
+	Finish      [][3]int  `json:"finish,omitempty"`
+	Deliver     [][3]int  `json:"deliver,omitempty"`
+	VarTypes    []vartype `json:"vartypes,omitempty"`
 }
 
 type answer struct {
@@ -196,13 +210,43 @@ func once(req *request) (r run) {
 	}
 	var collected []ddperror.Error
 	mods := map[string]*ast.Module{}
+	if req.Trace {
+		parser.VerifReset()
+		var last [4]int
+		lastKind := ""
+		rep := 0
+		parser.VerifHook = func(kind string, pid, a, b int) {
+			switch kind {
+			case "main", "block":
+				r.Iters++
+				cur := [4]int{pid, a, b, 0}
+				if kind == lastKind && cur == last {
+					rep++
+					if rep >= 3 {
+						r.Stall = true
+						panic("verif: parser loop made no progress (" + kind + ")")
+					}
+				} else {
+					rep = 0
+				}
+				last, lastKind = cur, kind
+			case "finish":
+				r.Finish = append(r.Finish, [3]int{pid, a, b})
+			case "deliver":
+				if len(r.Deliver) < 200 {
+					r.Deliver = append(r.Deliver, [3]int{pid, a, b})
+				}
+			}
+		}
+		defer func() { parser.VerifHook = nil }()
+	}
 	var module *ast.Module
 	func() {
 		defer func() {
 			if p := recover(); p != nil {
 				r.Panic = fmt.Sprint(p)
-				if len(r.Panic) > 600 {
-					r.Panic = r.Panic[:600]
+				if len(r.Panic) > 6000 {
+					r.Panic = r.Panic[:6000]
 				}
 				if req.Stack {
 					r.Stack = string(debug.Stack())
@@ -273,6 +317,22 @@ func once(req *request) (r run) {
 			ast.VisitModule(module, cv)
 			r.Calls = cv.calls
 		}()
+	}
+	if req.Types && module != nil && module.Ast != nil && r.Panic == "" {
+		for _, st := range module.Ast.Statements {
+			if ds, ok := st.(*ast.DeclStmt); ok {
+				if vd, ok := ds.Decl.(*ast.VarDecl); ok {
+					vt := vartype{Name: vd.Name(), Line: int(vd.NameTok.Range.Start.Line)}
+					if vd.Type != nil {
+						vt.Decl = vd.Type.String()
+					}
+					if vd.InitType != nil {
+						vt.Init = vd.InitType.String()
+					}
+					r.VarTypes = append(r.VarTypes, vt)
+				}
+			}
+		}
 	}
 	if req.Dump && module != nil && module.Ast != nil && r.Panic == "" {
 		func() {
